@@ -443,6 +443,9 @@ impl Ctrl {
                         Some(CoSt::Suspended) => true,
                         // switched out, its kernel side is an actor of its own
                         Some(CoSt::Switching(_)) => g.actors.iter().any(|x| x.kernel_of == Some(i)),
+                        // queued on a worker whose thread is occupied by an actor that is stopped at a point (it got there
+                        // after the placement): it runs once that actor has been released
+                        Some(CoSt::Queued) => g.placed.iter().any(|p| p.0 == a.vid && g.actors.iter().enumerate().any(|(j, x)| j != i && x.st == ASt::AtPoint && x.worker == p.1)),
                         _ => false,
                     }
                 } else {
